@@ -19,7 +19,7 @@ RULE = ("narrow schema = a int64, s text (nullable), c categorical(str), p int64
         "initial states with the small alphabet: narrow schema, layouts {hive with 10 one-row part files, two foreign-named "
         "files gathered with merge(), one file of 2 row groups gathered with merge(), empty simple file, empty hive "
         "dataset}; wide schema, {hive partition_on [p, q] x written index {no, 'idx'}} + index kinds {default RangeIndex "
-        "(write_index=None), unnamed non-range index, 2-level MultiIndex with new level values in every batch and c as "
+        "(write_index=None), a RangeIndex not starting at 0 stored with write_index=True, unnamed non-range index, 2-level MultiIndex with new level values in every batch and c as "
         "text} x {simple, hive [p]} (thorough: also hive unpartitioned); "
         "operation alphabet (full) = 6 schema-compatible frames (3 rows, 1 row, 0 rows, with nulls, categorical "
         "with new labels, categorical with a subset of labels) x row_group_offsets {None, 1} x compression {None, SNAPPY} "
@@ -70,7 +70,7 @@ def initial_states(tier="quick"):
     # ---- small-alphabet states on the wide schema
     out.append({"scheme": "hive", "part": "pq", "widx": False, "wide": True})
     out.append({"scheme": "hive", "part": "pq", "widx": True, "wide": True})
-    for widx in ("range", "unnamed", "multi"):
+    for widx in ("range", "unnamed", "multi", "range_written"):
         out.append({"scheme": "simple", "part": False, "widx": widx, "wide": True})
         out.append({"scheme": "hive", "part": True, "widx": widx, "wide": True})
         if tier == "thorough":
@@ -88,7 +88,7 @@ def max_depth(init, tier):
         return 3
     # quick: the default-range and unnamed index kinds only differ from the named index in how the appended frame
     # is reshaped: one append shows it
-    return 1 if init["widx"] in ("range", "unnamed") else 2
+    return 1 if init["widx"] in ("range", "unnamed", "range_written") else 2
 
 
 def final_only(op):
@@ -234,6 +234,10 @@ def frame(name, widx, base_id, wide=False):
     if widx is True:
         df.index = pd.Index([base_id + i for i in range(n)], name="idx", dtype="int64")
         idx = [(base_id + i,) for i in range(n)]
+    elif widx == "range_written":
+        # a RangeIndex that does not start at 0 (a slice of a longer frame), stored on request (write_index=True)
+        df.index = pd.RangeIndex(base_id, base_id + n)
+        idx = [(base_id + i,) for i in range(n)]
     elif widx == "unnamed":
         df.index = pd.Index([base_id + 2 * i for i in range(n)], dtype="int64")
         idx = [(base_id + 2 * i,) for i in range(n)]
@@ -287,7 +291,7 @@ def read_rows(path, widx, wide=False):
     import fastparquet
     pf = fastparquet.ParquetFile(path)
     df = pf.to_pandas()
-    nidx = {False: 0, "range": 0, True: 1, "unnamed": 1, "multi": 2}[widx]
+    nidx = {False: 0, "range": 0, True: 1, "unnamed": 1, "multi": 2, "range_written": 1}[widx]
     if nidx and df.index.nlevels != nidx:
         raise ValueError("the index read has %d level(s), written with %d" % (df.index.nlevels, nidx))
     rows, idx = rows_of(df, nidx, wide)
@@ -311,6 +315,8 @@ def initial_write(path, init):
         kw["partition_on"] = ["p", "q"] if part == "pq" else ["p"]
     if widx is False:
         kw["write_index"] = False
+    if widx == "range_written":
+        kw["write_index"] = True
     # widx True / unnamed / multi: a non-range index is written by default; "range": the default for a RangeIndex
     if layout in ("merged", "merged_rg"):
         from fastparquet import writer
